@@ -1,12 +1,12 @@
 SPECIFICATION Spec
 CONSTANT MaxCalls = 2
 CONSTANT MaxHandles = 2
-CONSTANT KindSet = {"Now", "Raise", "Later", "Never", "Give", "GiveLater", "Take"}
+CONSTANT KindSet = {"Now", "Raise", "Later", "Give", "GiveLater", "Take"}
 CONSTANT Flags = {FALSE}
 CONSTANT Hows = {"ok", "err"}
-CONSTANT Reasons = {1}
-CONSTANT NObj = {1}
-CONSTANT Depth = 9
+CONSTANT Reasons = {1, 2}
+CONSTANT NObj = {1, 2}
+CONSTANT Depth = 13
 CONSTRAINT Bound
 VIEW View
 INVARIANT ExactlyOnce
